@@ -215,7 +215,9 @@ theorem heapInv_sendHeader {w : State} (h : HeapInv w) (md : MD) : HeapInv (send
   unfold sendHeader
   split
   · exact h
-  · exact ⟨h.cLt, h.sLt, h.disj, h.cObj, h.sObj⟩
+  · split
+    · exact h
+    · exact ⟨h.cLt, h.sLt, h.disj, h.cObj, h.sObj⟩
 
 theorem heapInv_setTrailer {w : State} (h : HeapInv w) (md : MD) : HeapInv (setTrailer w md) :=
   ⟨h.cLt, h.sLt, h.disj, h.cObj, h.sObj⟩
